@@ -435,12 +435,12 @@ class XmlTime(NamedTuple):
     @classmethod
     def now(cls, tz: datetime.timezone | None = None) -> "XmlTime":
         """Initialize with the current time and the given timezone."""
-        return cls.from_time(datetime.datetime.now(tz=tz).time())
+        return cls.from_time(datetime.datetime.now(tz=tz).timetz())
 
     @classmethod
     def utcnow(cls) -> "XmlTime":
         """Initialize with the current time and utc timezone."""
-        return cls.from_time(datetime.datetime.now(datetime.timezone.utc).time())
+        return cls.from_time(datetime.datetime.now(datetime.timezone.utc).timetz())
 
     def to_time(self) -> datetime.time:
         """Convert to a `datetime.time` instance."""
